@@ -61,7 +61,8 @@ Inductive opcase :=
 | CFromCoo (idx : option ity) (rows cols : Z) (lin : list Z)
 | CGcxsJoin (ptrs : list (list Z * Z))
 | CUncompress (indptr : list Z)
-| CTranspose (R C : Z) (rc cc : list Z).   (* t of the case = dtype of x.indices *)
+| CTranspose (R C : Z) (rc cc : list Z)
+| CCanon (ndim : Z) (ps : list (Z * Z)).     (* user-supplied (linear position, data) in the given order *)   (* t of the case = dtype of x.indices *)
 
 Definition one_row (r : res tarr) : iout :=
   match r with Ok a => IRows (tdt a) [tv a] | Raise e => IExc e end.
@@ -107,6 +108,7 @@ Definition mout (d : dty) (c : opcase) : iout :=
       | Raise e => IExc e
       end
   | CUncompress p => let a := m_uncompress d p in IRows (tdt a) [tv a]
+  | CCanon ndim ps => IPairs (m_canon d ndim ps)
   | CTranspose R C rc cc =>
       match m_transpose d R C rc cc with
       | Ok (i, p) => IRows (tdt p) [tv i; tv p]
@@ -165,7 +167,7 @@ Definition tag_op (c : op_case) : Z :=
   let ctor := match oc with
     | CConcat _ _ => 1 | CFlip _ _ => 2 | CRoll _ _ _ => 3 | CRollT _ => 4 | CGetitem _ _ _ _ _ => 5
     | CReshape _ _ => 6 | CReduce _ _ => 7 | CTri _ _ _ _ _ => 8 | CKron _ => 9 | CPad _ => 10
-    | CStack _ => 11 | CCtor _ _ _ => 12 | CFromCoo _ _ _ _ => 13 | CGcxsJoin _ => 14 | CUncompress _ => 15 | CTranspose _ _ _ _ => 16 end in
+    | CStack _ => 11 | CCtor _ _ _ => 12 | CFromCoo _ _ _ _ => 13 | CGcxsJoin _ => 14 | CUncompress _ => 15 | CTranspose _ _ _ _ => 16 | CCanon _ _ => 17 end in
   let mw := mout (DInt t) oc in
   100 * ctor + (if negb (failed_clause t oc =? 0) then 2 else if is_value_error mw then 1 else 0).
 
